@@ -83,14 +83,14 @@ fn api_jet(model: &Arc<ResidualModel>, s: &RState) -> Option<Value> {
 
 /// central finite differences on the public API around a state (the search oracle of DESIGN.md section 4):
 /// each reported derivative vs. the numerical derivative of the next-lower-order quantity.
-fn fd_search(model: &Arc<ResidualModel>, s: &RState) -> Vec<Value> {
+fn fd_search(model: &Arc<ResidualModel>, s: &RState, one_sided_t: bool) -> Vec<Value> {
     // a derivative is flagged only if it disagrees with the central difference for EVERY step size
     // (truncation error dominates for large steps, round-off noise for small ones)
     let mut best: std::collections::BTreeMap<String, (f64, Value)> = std::collections::BTreeMap::new();
     let hs = [1e-3, 1e-4, 1e-5, 1e-6];
     for (k, h) in hs.iter().enumerate() {
         let mut seen = std::collections::BTreeSet::new();
-        for (q, excess, v) in fd_search_h(model, s, *h) {
+        for (q, excess, v) in fd_search_h(model, s, *h, one_sided_t) {
             seen.insert(q.clone());
             if k == 0 {
                 best.insert(q, (excess, v));
@@ -110,11 +110,11 @@ fn fd_search(model: &Arc<ResidualModel>, s: &RState) -> Vec<Value> {
 }
 
 /// (quantity, mismatch / tolerance, description) of every derivative outside its tolerance for step `h`
-fn fd_search_h(model: &Arc<ResidualModel>, s: &RState, h: f64) -> Vec<(String, f64, Value)> {
-    let mut out = Vec::new();
+fn fd_search_h(model: &Arc<ResidualModel>, s: &RState, h: f64, one_sided_t: bool) -> Vec<(String, f64, Value)> {
+    let out = std::cell::RefCell::new(Vec::new());
     let nc = s.n.len();
     let nd = nc + 2;
-    let Some(j0) = api_jet(model, s) else { return out };
+    let Some(j0) = api_jet(model, s) else { return out.into_inner() };
     let shift = |dir: usize, h: f64| {
         let mut x = s.clone();
         match dir {
@@ -133,14 +133,45 @@ fn fd_search_h(model: &Arc<ResidualModel>, s: &RState, h: f64) -> Vec<(String, f
     let ntot: f64 = s.n.iter().sum();
     let ig = |dirs: &[usize]| dirs.iter().fold(ntot * s.t, |a, d| a / coord(*d));
     let getf = |v: &Value| v.as_f64().unwrap_or(f64::NAN);
-    let mut test = |name: String, fd: f64, an: f64, tol: f64| {
+    let test = |name: String, fd: f64, an: f64, tol: f64| {
         if fd.is_finite() && an.is_finite() && !((fd - an).abs() <= tol) {
-            out.push((name.clone(), (fd - an).abs() / tol,
+            out.borrow_mut().push((name.clone(), (fd - an).abs() / tol,
                 json!({"quantity": name, "state": s.vars(), "reported": an, "finite_difference": fd, "step": h})));
         }
     };
     for d in 0..nd {
         let (Some(jp), Some(jm)) = (api_jet(model, &shift(d, h)), api_jet(model, &shift(d, -h))) else { continue };
+        if d == 0 && one_sided_t {
+            // the state sits exactly on a temperature where the model's code branches (e.g. a point of a piecewise-linear
+            // permittivity table): the function may have a kink there, so the reported derivative must equal ONE of the
+            // one-sided difference quotients (first-order accurate: looser tolerance)
+            let dx = h * coord(0);
+            let one = |k: &str, idx: Option<(usize, usize)>| -> (f64, f64, f64) {
+                let get = |j: &Value| match idx {
+                    None => getf(&j[k]),
+                    Some((a, b)) if a == usize::MAX => getf(&j[k][b]),
+                    Some((a, b)) => getf(&j[k][a][b]),
+                };
+                ((get(&jp) - get(&j0)) / dx, (get(&j0) - get(&jm)) / dx, get(&j0))
+            };
+            let test1 = |name: String, fwd: f64, bwd: f64, an: f64, sc: f64| {
+                let tol = 2e-3 * sc;
+                let e = (fwd - an).abs().min((bwd - an).abs());
+                if fwd.is_finite() && bwd.is_finite() && an.is_finite() && !(e <= tol) {
+                    out.borrow_mut().push((name.clone(), e / tol, json!({"quantity": name, "state": s.vars(), "reported": an,
+                        "forward_difference": fwd, "backward_difference": bwd, "step": h, "note": "state on a branch temperature: one-sided differences"})));
+                }
+            };
+            let (f, b, _) = one("a0", None);
+            let an = getf(&j0["a1"][0]);
+            test1("dA/d0".to_string(), f, b, an, an.abs().max(getf(&j0["a0"]).abs() / coord(0)) + 1e-5 * ig(&[0]));
+            for e in 0..nd {
+                let (f, b, lower) = one("a1", Some((usize::MAX, e)));
+                let an = getf(&j0["a2"][e][0]);
+                test1(format!("d2A/d{e}d0"), f, b, an, an.abs().max(lower.abs() / coord(0)) + 1e-5 * ig(&[e, 0]));
+            }
+            continue;
+        }
         let dx = 2.0 * h * coord(d);
         // first order vs A
         let fd = (getf(&jp["a0"]) - getf(&jm["a0"])) / dx;
@@ -162,7 +193,7 @@ fn fd_search_h(model: &Arc<ResidualModel>, s: &RState, h: f64) -> Vec<(String, f
             test(format!("d3A/d{key}"), fd, an, 1e-4 * sc + 1e-8 * ig(&[d, d, d]));
         }
     }
-    out
+    out.into_inner()
 }
 
 const BODY_COMMON: &str = r#"
@@ -247,7 +278,7 @@ pub fn run(out_dir: &str, tier: &str, seed: u64, only: Option<String>, search_n:
     let k_third = if full { 2 } else { 1 };
     let k_fd = search_n.unwrap_or(if full { 40 } else { 6 });
     // size limits (instructions of P) up to which orders 2 and 3 are enclosed (cost grows ~9x / ~27x)
-    let (lim2, lim3) = if full { (4000, 900) } else { (1500, 450) };
+    let (lim2, lim3) = if full { (2500, 900) } else { (1500, 450) };
     let prec = 100;
     let mut results = Vec::new();
     for c in &cfgs {
@@ -305,7 +336,7 @@ pub fn run(out_dir: &str, tier: &str, seed: u64, only: Option<String>, search_n:
         for _ in 0..k_fd {
             let s = configs::sample_state(c, &mut rng);
             fd_n += 1;
-            let f = fd_search(&c.model, &s);
+            let f = fd_search(&c.model, &s, c.special_t.contains(&s.t));
             if fd_fail.len() < 5 {
                 fd_fail.extend(f.into_iter().take(3));
             }
